@@ -387,3 +387,43 @@ def main(tier):
                        "empty and long vectors) for encode-vs-reference, round trip and cross decode; all known extensions "
                        "with rewritten extension_data length; mutated / random bytes against the strict reference decoder")
     return ctx.finish()
+
+
+TLS_ORACLES = {"encode-differs", "roundtrip", "cross-decode", "parse-escape", "accepts-malformed", "no-reencode",
+               "reencode-differs", "extension-length"}
+
+
+def owns(d):
+    """does this replay file come from the TLS section?"""
+    sig = d.get("signature", {})
+    return sig.get("oracle") in TLS_ORACLES and sig.get("message") in KINDS
+
+
+def replay_witness(d):
+    """re-execute a recorded TLS codec witness (bytes) on the current tree; call after tree.activate().
+    Returns the list of problems that reproduce (empty = no longer failing)."""
+    from aioquic import tls
+    sig, rep = d.get("signature", {}), d.get("replay", {})
+    kind, oracle = sig["message"], sig["oracle"]
+    ctx = core.Ctx("replay", "quick")
+    if oracle == "extension-length":
+        st, _ = parse_outcome(tls, kind, bytes.fromhex(rep["bytes"]))
+        return [f"pull_{kind} still accepts the {rep.get('extension')} extension with a rewritten length"] if st == "ok" else []
+    if oracle == "encode-differs":
+        st, v = parse_outcome(tls, kind, bytes.fromhex(rep["aioquic"]))
+        if st != "ok":
+            return [f"pull_{kind} no longer reads its own encoding: {v!r}"]
+        data, want = push(tls, kind, v), REF.encode(kind, to_ref(kind, v))
+        return [] if data == want else [f"push_{kind} still differs from the reference encoder: {data.hex()} vs {want.hex()}"]
+    data = bytes.fromhex(rep["bytes"])
+    judge_bytes(ctx, tls, kind, data, "replay", {})
+    out = [w["what"] for w in ctx.witnesses]
+    if oracle in ("roundtrip", "cross-decode") and not out:
+        st, v = parse_outcome(tls, kind, data)
+        if st != "ok" or push(tls, kind, v) != data:
+            out.append(f"pull_{kind} / push_{kind} still do not round-trip these bytes")
+        rk, rd = ref_outcome(data)
+        if rk != kind or norm(kind, rd) != norm(kind, to_ref(kind, v) if st == "ok" else {}):
+            out.append("the reference decoder still reads these bytes differently")
+    CORR.clear()
+    return out
